@@ -4,7 +4,7 @@ Engine: E1 + E2.  Fault plan per call: failing task(s), failing input iterator,
 never-completing task with timeout=; flavour G adds late completions (no abort).
 """
 import random
-from sim.harness import H
+from sim.harness import H, hz_runs
 from sim import detsched as ds
 from . import par_common as pc
 from .par_common import V
@@ -83,7 +83,7 @@ def _supports_timeout(case):
 
 
 def plan(tier, seed):
-    for i in range(N_RUNS[tier]):
+    for i in range(hz_runs(N_RUNS, tier)):
         yield gen_case(random.Random(H(seed, PROP, i)))
 
 
